@@ -296,8 +296,12 @@ class Impl:
                 mt.append({"id": k, "in": True, "back": back, "model_ptr": m._model is M, "detached_back": det})
             else:
                 mt.append({"id": k, "in": False, "back": []})
-        raw = obsmodel.observe_raw(M)
-        shape_ok = raw["column_names_unique"] and raw["row_names_unique"] and raw["constant"] in ("0/1", None)
+        try:
+            raw = obsmodel.observe_raw(M)
+            shape_ok = raw["column_names_unique"] and raw["row_names_unique"] and raw["constant"] in ("0/1", None)
+        except Exception as e:  # noqa  -- e.g. optlang's pending removals refer to objects that are not in the problem
+            raw = {"columns": [], "rows": [], "direction": "max", "observe_error": "%s: %s" % (type(e).__name__, e)}
+            shape_ok = False
         names = {}
         for k, r in self.rx.items():
             names[r.id] = (k, False)
